@@ -450,7 +450,10 @@ def run(run, tier, loadcfg):
     run.explanation = __doc__
     run.assumptions = ['core::array::from_fn calls its closure for 0..N in order; core array map is element-wise', 'numeric content of conversions is C01/C02']
     for cfg in ['std-debug'] + (['nostd'] if tier == 'thorough' else []):
-        cx = Ctx(loadcfg(cfg))
+        fx_ = loadcfg(cfg, optional=(cfg == 'nostd'))
+        if fx_ is None:
+            continue
+        cx = Ctx(fx_)
         check_sample_table(run, cx, cfg)
         check_sample_defaults(run, cx, cfg)
         check_frame_table(run, cx, cfg)
